@@ -183,6 +183,43 @@ def link_driver(name, driver_srcs, cfg="plain", schema=None, bdir=None, extra_fl
     return out
 
 
+def scanner(cfg="plain"):
+    """The configure-time schema scanner, built the way cmake/schema_scanner/schemaScanner.cmake does (sub-project
+    configured with an initial cache naming the source tree and the core build directory)."""
+    bdir = core(cfg)
+    sdir = os.path.join(WORK, "scanner-" + cfg)
+    lk = _lock("scanner-" + cfg)
+    try:
+        if not os.path.exists(os.path.join(sdir, "build.ninja")):
+            mkdir(sdir)
+            cache = os.path.join(sdir, "initial_scanner_cache.cmake")
+            c = CFGS[cfg]
+            with open(cache, "w") as f:
+                f.write('set(SC_ROOT "%s" CACHE STRING "root dir")\nset(SC_BUILDDIR "%s" CACHE PATH "build dir")\n'
+                        'set(CALLED_FROM "STEPCODE_CMAKELISTS" CACHE STRING "verification")\n'
+                        'set(CMAKE_BUILD_TYPE "Debug" CACHE STRING "build type")\n'
+                        'set(CMAKE_C_COMPILER "%s" CACHE STRING "compiler")\nset(CMAKE_CXX_COMPILER "%s" CACHE STRING "compiler")\n'
+                        % (REPO, sdir, c["cc"], c["cxx"]))
+            mkdir(os.path.join(sdir, "include"))
+            for h in os.listdir(os.path.join(bdir, "include")):
+                src = os.path.join(bdir, "include", h)
+                if os.path.isfile(src):
+                    shutil.copy(src, os.path.join(sdir, "include", h))
+            p = run(["cmake", "-C", cache, os.path.join(REPO, "cmake", "schema_scanner"), "-G", "Ninja"], cwd=sdir, timeout=300)
+            if p.returncode != 0:
+                shutil.rmtree(sdir, ignore_errors=True)
+                raise BuildFailure("schema scanner configure failed:\n" + (p.stdout + p.stderr)[-3000:])
+        p = run(["ninja", "-C", sdir], timeout=900)
+        if p.returncode != 0:
+            raise BuildFailure("schema scanner build failed:\n" + (p.stdout + p.stderr)[-4000:])
+    finally:
+        lk.close()
+    for cand in (os.path.join(sdir, "bin", "schema_scanner"), os.path.join(sdir, "schema_scanner")):
+        if os.path.exists(cand):
+            return cand
+    raise BuildFailure("schema_scanner binary not found under " + sdir)
+
+
 def tool(bdir, name):
     return os.path.join(bdir, "bin", name)
 
